@@ -280,7 +280,7 @@ def processAggregateArg (t : CTy) (ai : ArgInfo) : Nat × List QT × ArgInfo :=
       else
         let nI := (q.filter QT.isI).length
         let nF := (q.filter QT.isF).length
-        if ai.nI + nI > 6 ∨ ai.nF + nF > 8 then (0, q, ai)
+        if (nI > 0 ∧ ai.nI + nI > 6) ∨ (nF > 0 ∧ ai.nF + nF > 8) then (0, q, ai)
         else (q.length, q, { nI := ai.nI + nI, nF := ai.nF + nF })
 
 /-- `MIR_T_BLK + k` -/
@@ -357,13 +357,6 @@ def c2mProto (ret : Option CTy) (ps : List CTy) : Option RetLoc × List ArgLoc :
 def validCls (cs : List Cls) : Bool :=
   cs == [.int] || cs == [.sse] || cs == [.int, .int] || cs == [.int, .sse] || cs == [.sse, .int]
   || cs == [.sse, .sse] || cs == [.x87, .x87up]
-
-/-- does c2mir reach every aggregate parameter with counters that are not above the number of
-registers? (they are not saturated: `arg_info->n_iregs++` for every integer scalar) -/
-def countersOk : ArgInfo → List CTy → Bool
-  | _, [] => true
-  | ai, t :: ts =>
-    (!isAgg t || (decide (ai.nI ≤ 6) && decide (ai.nF ≤ 8))) && countersOk (c2mArg ai t).2 ts
 
 def isParamTy : CTy → Bool
   | .arr _ _ => false
